@@ -42,10 +42,31 @@ def arg_pattern(rng, depth=1, meta=0.4, notation=0.3, syms=SYMS):
     # variable is where generator and checker have to agree on dropping the substitution)
     e = rp.rand_term(rng, rng.randint(0, depth), meta=rng.random() < meta, notation=notation, substs=rng.random() < 0.25, syms=syms,
                      constrained=0.25 if rng.random() < 0.3 else 0.0, evs=(0, 1, 2), svs=(0, 1), mvs=(0, 1, 2))
+    if rng.random() < 0.1:
+        e = _with_holes(e, rng)
     # mu must be positive for the machine; the toolkit does not check -> keep generated arguments well-formed
     if not _wf(e):
         return rp.fold(tb.sy(rng.choice(syms)), rng, 0.0), tb.sy('a') if False else None
     return rp.fold(e, rng, rng.choice((0.0, 0.5, 0.9))), e
+
+
+def _with_holes(e, rng, table=None):
+    """the same term with application-context holes on its metavariables (one choice per number; never a variable the metavariable
+    declares fresh - the machine refuses to build those).  No implementation interprets the holes (A11); they are part of the node's identity."""
+    table = {} if table is None else table
+    k = e[0]
+    if k == 'mv':
+        if e[1] not in table:
+            table[e[1]] = tuple(sorted(v for v in (0, 1, 3, 4) if v not in e[2] and rng.random() < 0.4))
+        holes = tuple(v for v in table[e[1]] if v not in e[2])
+        return e[:6] + (holes,)
+    if k in ('ev', 'sv', 'sy'):
+        return e
+    if k in ('im', 'ap'):
+        return (k, _with_holes(e[1], rng, table), _with_holes(e[2], rng, table))
+    if k in ('ex', 'mu'):
+        return (k, e[1], _with_holes(e[2], rng, table))
+    return (k, _with_holes(e[1], rng, table), e[2], _with_holes(e[3], rng, table))
 
 
 def _wf(e):
